@@ -27,6 +27,22 @@ def gen_modules(rng, n, depth=3):
     return mods
 
 
+def budget_modules(sizes):
+    """modules with MANY axioms, each also a claim proved by load_axiom: under optimisation the memoiser's 256 - n budget is used up
+    (n = 129: memory slots 0..255 all taken, the last Save / Load address 255)"""
+    out = []
+    for n_ax in sizes:
+        ax = [('app', ('sym', 4000 + i // 200), ('app', ('evar', i % 200), ('evar', (i * 7 + 1) % 200))) for i in range(n_ax)]
+        out.append(('module', ax, list(ax), [('axiom', a) for a in ax], []))
+    # ... and without axioms: claims `A -> (A -> A)` by prop1 for many different A: all suggestions are saved in the claim / proof phases
+    for n_cl in sizes[:2]:
+        A = [('app', ('sym', 4000), ('evar', k)) for k in range(max(90, n_cl))]
+        # (the bare prop1 first: with it the optimiser uses all 256 slots, the last Save addresses slot 255)
+        proofs = [('prop1',)] + [('dyninst', ('prop1',), ((0, a), (1, a))) for a in A]
+        out.append(('module', [], [genpf.conc(pf) for pf in proofs], proofs, []))
+    return out
+
+
 def serialise(mods):
     """returns per module: dict with keys raw/opt -> python answer, memo, and the model's answers"""
     ms = [genpf.module_to_s(m) for m in mods]
